@@ -6,7 +6,7 @@
 From Coq Require Import List ZArith Bool Arith Lia.
 From SC Require Import Base.Res Base.PyList Inst.Heap Inst.ClassTable Inst.Model Inst.Canon
   Inst.Abs Inst.SpecHelpers Inst.ElemProofs Inst.Framed Inst.RefineProofs Inst.CopyProofs Inst.ElemRefineDep Inst.ElemRefine
-  Inst.ElemRefine2 Inst.ElemRefine3 Inst.ElemRefine4 Inst.ElemRefine5 Inst.ElemRefine6 Inst.ElemRefine7 Inst.ElemRefine8 Inst.ElemRefine9 Inst.ElemRefine10 Inst.ElemRefine11 Inst.ElemRefine12 Inst.ElemRefine13 Inst.ElemRefine14 Inst.ElemRefine15.
+  Inst.ElemRefine2 Inst.ElemRefine3 Inst.ElemRefine4 Inst.ElemRefine5 Inst.ElemRefine6 Inst.ElemRefine7 Inst.ElemRefine8 Inst.ElemRefine9 Inst.ElemRefine10 Inst.ElemRefine11 Inst.ElemRefine12 Inst.ElemRefine13 Inst.ElemRefine14 Inst.ElemRefine15 Inst.ElemRefine16.
 Import ListNotations.
 Open Scope nat_scope.
 
@@ -1681,6 +1681,218 @@ Section GuardedKeeps.
     exact (update_item_set_keeps ct l a c d k sp s lc Gl Gc Ga Gd Gfz Gni Gfld Gsh xs ity Hty ltac:(dep) Glc Go voi v P1 P2 Hv Hnv).
   Qed.
 End GuardedKeeps.
+
+(* ------------------------------------------------------------------ *)
+(** * Histories of copy-on-write calls: the guard holds for the returned instance *)
+
+Lemma nodupb_complete l : NoDup l -> nodupb l = true.
+Proof.
+  induction 1 as [|x l Hx Hl IH]; [reflexivity|]. cbn [nodupb]. rewrite IH, andb_true_r. apply negb_true_iff.
+  destruct (existsb (Nat.eqb x) l) eqn:E; auto. apply existsb_exists in E. destruct E as [y [Hy Ey]].
+  apply Nat.eqb_eq in Ey. subst y. contradiction.
+Qed.
+
+Lemma flat_fieldsb_complete h d : flat_fields h d -> flat_fieldsb h d = true.
+Proof.
+  unfold flat_fields, flat_fieldsb. intro H. apply forallb_forall. intros p Hp.
+  destruct (H p Hp) as [Hn|[lx [o [E [Ho Hs]]]]].
+  - destruct (snd p); cbn [nonref] in Hn; try discriminate; reflexivity.
+  - rewrite E. cbn [flat_valb]. now rewrite Ho.
+Qed.
+
+Lemma copy_guard_result ct s s' l l' a kd c d o :
+  copy_guard ct s l a kd = true -> nth_error (heap s) l = Some (OInst c d) -> attr_obj s l a = Some o ->
+  copy_shape s' l' a c o -> copy_guard ct s' l' a kd = true.
+Proof.
+  intros G Hl Hobj [dfin [lp [o' [H1 [H2 [H3 [H4 [H5 [H6 [H7 H8]]]]]]]]]].
+  unfold attr_obj, attr_cell in Hobj. rewrite Hl in Hobj.
+  unfold copy_guard in *. rewrite Hl in G. rewrite H1.
+  destruct (lookup_cls ct c) as [k|]; try discriminate.
+  destruct (lookup_attr k a) as [sp|]; try discriminate.
+  destruct (assoc a d) as [[| | | | | | | |lc]|]; try discriminate.
+  rewrite Hobj in G. rewrite H4, H6.
+  apply andb_true_iff in G. destruct G as [G Gkind].
+  apply andb_true_iff in G. destruct G as [G Gsc].
+  apply andb_true_iff in G. destruct G as [G Ga0].
+  apply andb_true_iff in G. destruct G as [G Ginit].
+  apply andb_true_iff in G. destruct G as [G Gpc].
+  apply andb_true_iff in G. destruct G as [G Gflat].
+  apply andb_true_iff in G. destruct G as [G Gdep].
+  apply andb_true_iff in G. destruct G as [G Gnd].
+  apply andb_true_iff in G. destruct G as [Gdup Gdnc].
+  rewrite (nodupb_complete _ H2), Gdnc, Gnd, Gdep, (flat_fieldsb_complete _ _ H3), Gpc, H5, Ga0, H7.
+  rewrite (kind_ok_same kd (a_ty sp) o o' H8), Gkind. reflexivity.
+Qed.
+
+(* after the call: the guard holds for the instance it returned *)
+Definition copy_guard_kept (ct : ctable) (s : state) (l : loc) (a : aid) (kd : ckind) (hp : helper) (h : hargs) : Prop :=
+  match run_helper ct l hp h s with
+  | (Ok r, s') => exists l', r = VRef l' /\ copy_guard ct s' l' a kd = true
+  | (Err _, s') => True
+  end.
+
+Section GuardedCopyKeeps.
+  Variable ct : ctable.
+  Variable s : state.
+  Variables (l : loc) (a : aid).
+
+  Lemma shape_to_guard kd hp h c d o :
+    copy_guard ct s l a kd = true -> nth_error (heap s) l = Some (OInst c d) -> attr_obj s l a = Some o ->
+    keeps_shape ct s l a c hp h o -> copy_guard_kept ct s l a kd hp h.
+  Proof.
+    intros G Hl Ho K. unfold keeps_shape in K. unfold copy_guard_kept.
+    destruct (run_helper ct l hp h s) as [[r|e] s']; auto.
+    destruct K as [l' [-> K]]. exists l'. split; auto.
+    exact (copy_guard_result ct s s' l l' a kd c d o G Hl Ho K).
+  Qed.
+
+  Ltac ipfacts kd H :=
+    destruct (copy_guard_sound ct s l a kd H) as [c [d [k [sp [lc [o [G [Hk [Hsp Hob]]]]]]]]];
+    destruct G as [Gl Gc Ga Gd Gdnc Gpc Gni Gdep Gfld Glc Go Gflat Ginit Ga0].
+  Ltac lshape Hty Hk :=
+    match goal with sp : attr_spec, o : obj |- _ =>
+      destruct (a_ty sp) as [| | | | | | |ity| |ity'|] eqn:Hty; try discriminate Hk;
+      destruct o as [xs| | |]; try discriminate Hk end.
+  Ltac dshape Hty Hk :=
+    match goal with sp : attr_spec, o : obj |- _ =>
+      destruct (a_ty sp) as [| | | | | | | |tk tv| |] eqn:Hty; try discriminate Hk;
+      destruct o as [|kvs| |]; try discriminate Hk end.
+  Ltac sshape Hty Hk :=
+    match goal with sp : attr_spec, o : obj |- _ =>
+      destruct (a_ty sp) as [| | | | | | |ity'| |ity|] eqn:Hty; try discriminate Hk;
+      destruct o as [| |xs|]; try discriminate Hk end.
+  Ltac dep := cbn [ty_depth] in *; lia.
+
+  (* ---- lists ---- *)
+  Theorem with_item_list_copy_keeps_guard idx v ins :
+    copy_guard ct s l a KList = true -> plain_items ct s l a = true ->
+    vscalar v = true -> (idx = VMissing \/ exists i, idx = VInt i) ->
+    copy_guard_kept ct s l a KList (HWithItem a) (mkh [v] false true idx ins None None [] None).
+  Proof.
+    intros H Hp Hv Hi. pose proof H as H0. ipfacts KList H. destruct (plain_items_facts ct s l a sp Hsp Hp) as [P1 P2].
+    lshape Hty Hk. cbn [item_type] in P2.
+    apply (shape_to_guard KList _ _ c d (OList xs) H0 Gl Hob).
+    exact (with_item_list_copy_keeps ct l a c d k sp s lc Gl Gc Ga Gd Gdnc Gpc Gni Gfld Gflat Ginit Ga0 xs ity Hty ltac:(dep) Glc idx v ins Go P1 P2 Hv Hi).
+  Qed.
+
+  Theorem without_item_list_copy_keeps_guard voi bi :
+    copy_guard ct s l a KList = true -> nonref voi = true ->
+    copy_guard_kept ct s l a KList (HWithoutItem a) (mkh [voi] false true VMissing false bi None [] None).
+  Proof.
+    intros H Hv. pose proof H as H0. ipfacts KList H. lshape Hty Hk.
+    apply (shape_to_guard KList _ _ c d (OList xs) H0 Gl Hob).
+    exact (without_item_list_copy_keeps ct l a c d k sp s lc Gl Gc Ga Gd Gdnc Gpc Gni Gfld Gflat Ginit Ga0 xs ity Hty ltac:(dep) Glc voi bi Go Hv).
+  Qed.
+
+  Theorem transform_item_list_copy_keeps_guard voi fo bi :
+    copy_guard ct s l a KList = true -> proper_elems s l a = true -> fail_at s = None ->
+    nonref voi = true -> is_missing voi = false -> fo_ok fo -> by_value_ok ct s l a voi bi = true ->
+    copy_guard_kept ct s l a KList (HTransformItem a) (mkh [voi] false true VMissing false bi None [] fo).
+  Proof.
+    intros H Hpe Hfa Hv Hm Hfo Hbv. pose proof H as H0. ipfacts KList H. lshape Hty Hk.
+    unfold proper_elems in Hpe. rewrite (list_of_list s l a xs Hob) in Hpe.
+    apply (shape_to_guard KList _ _ c d (OList xs) H0 Gl Hob).
+    exact (transform_item_list_copy_keeps ct l a c d k sp s lc Gl Gc Ga Gd Gdnc Gpc Gni Gfld Gflat Ginit Ga0 xs ity Hty ltac:(dep) Glc voi fo bi Hpe Hv Hm Hfa Hfo
+             (by_value_ok_facts ct s l a sp ity xs voi bi Hsp Hty (list_of_list s l a xs Hob) Hbv)).
+  Qed.
+
+  Theorem update_item_list_copy_keeps_guard voi v bi :
+    copy_guard ct s l a KList = true -> proper_elems s l a = true -> plain_items ct s l a = true ->
+    nonref voi = true -> is_missing voi = false -> nonref v = true ->
+    vscalar v || by_value_ok ct s l a voi bi = true ->
+    copy_guard_kept ct s l a KList (HUpdateItem a) (mkh [voi; v] false true VMissing false bi None [] None).
+  Proof.
+    intros H Hpe Hp Hv Hm Hnv Hbv. pose proof H as H0. ipfacts KList H.
+    destruct (plain_items_facts ct s l a sp Hsp Hp) as [P1 P2]. lshape Hty Hk. cbn [item_type] in P2.
+    unfold proper_elems in Hpe. rewrite (list_of_list s l a xs Hob) in Hpe.
+    apply (shape_to_guard KList _ _ c d (OList xs) H0 Gl Hob).
+    refine (update_item_list_copy_keeps ct l a c d k sp s lc Gl Gc Ga Gd Gdnc Gpc Gni Gfld Gflat Ginit Ga0 xs ity Hty ltac:(dep) Glc voi v bi Hpe P1 P2 Hv Hm Hnv _).
+    intros Hsv Hb. rewrite Hsv in Hbv. cbn [orb] in Hbv.
+    exact (by_value_ok_facts ct s l a sp ity xs voi bi Hsp Hty (list_of_list s l a xs Hob) Hbv Hb).
+  Qed.
+
+  (* ---- dicts ---- *)
+  Theorem with_item_dict_copy_keeps_guard key v :
+    copy_guard ct s l a KDict = true -> plain_items ct s l a = true -> nonref key = true -> vscalar v = true ->
+    copy_guard_kept ct s l a KDict (HWithItem a) (mkh [key; v] false true VMissing false None None [] None).
+  Proof.
+    intros H Hp Hkey Hv. pose proof H as H0. ipfacts KDict H.
+    destruct (plain_items_facts ct s l a sp Hsp Hp) as [P1 P2]. dshape Hty Hk. cbn [item_type] in P2.
+    apply (shape_to_guard KDict _ _ c d (ODict kvs) H0 Gl Hob).
+    exact (with_item_dict_copy_keeps ct l a c d k sp s lc Gl Gc Ga Gd Gdnc Gpc Gni Gfld Gflat Ginit Ga0 kvs tk tv Hty ltac:(dep) ltac:(dep) Glc Go key v P1 P2 Hkey Hv).
+  Qed.
+
+  Theorem without_item_dict_copy_keeps_guard key :
+    copy_guard ct s l a KDict = true -> nonref key = true ->
+    copy_guard_kept ct s l a KDict (HWithoutItem a) (mkh [key] false true VMissing false None None [] None).
+  Proof.
+    intros H Hkey. pose proof H as H0. ipfacts KDict H. dshape Hty Hk.
+    apply (shape_to_guard KDict _ _ c d (ODict kvs) H0 Gl Hob).
+    exact (without_item_dict_copy_keeps ct l a c d k sp s lc Gl Gc Ga Gd Gdnc Gpc Gni Gfld Gflat Ginit Ga0 kvs tk tv Hty Glc Go key Hkey).
+  Qed.
+
+  Theorem transform_item_dict_copy_keeps_guard key fo bi :
+    copy_guard ct s l a KDict = true -> dict_vals_proper s l a = true -> fail_at s = None ->
+    nonref key = true -> fo_ok fo ->
+    copy_guard_kept ct s l a KDict (HTransformItem a) (mkh [key] false true VMissing false bi None [] fo).
+  Proof.
+    intros H Hvp Hfa Hkey Hfo. pose proof H as H0. ipfacts KDict H. dshape Hty Hk.
+    apply (shape_to_guard KDict _ _ c d (ODict kvs) H0 Gl Hob).
+    exact (transform_item_dict_copy_keeps ct l a c d k sp s lc Gl Gc Ga Gd Gdnc Gpc Gni Gfld Gflat Ginit Ga0 kvs tk tv Hty ltac:(dep) ltac:(dep) Glc Go
+             key fo bi (dvp_facts s l a kvs Hob Hvp) Hkey Hfa Hfo).
+  Qed.
+
+  Theorem update_item_dict_copy_keeps_guard key v :
+    copy_guard ct s l a KDict = true -> dict_vals_proper s l a = true -> plain_items ct s l a = true ->
+    nonref key = true -> nonref v = true ->
+    copy_guard_kept ct s l a KDict (HUpdateItem a) (mkh [key; v] false true VMissing false None None [] None).
+  Proof.
+    intros H Hvp Hp Hkey Hnv. pose proof H as H0. ipfacts KDict H.
+    destruct (plain_items_facts ct s l a sp Hsp Hp) as [P1 P2]. dshape Hty Hk. cbn [item_type] in P2.
+    apply (shape_to_guard KDict _ _ c d (ODict kvs) H0 Gl Hob).
+    exact (update_item_dict_copy_keeps ct l a c d k sp s lc Gl Gc Ga Gd Gdnc Gpc Gni Gfld Gflat Ginit Ga0 kvs tk tv Hty ltac:(dep) ltac:(dep) Glc Go
+             key v (dvp_facts s l a kvs Hob Hvp) P1 P2 Hkey Hnv).
+  Qed.
+
+  (* ---- sets ---- *)
+  Theorem with_item_set_copy_keeps_guard v :
+    copy_guard ct s l a KSet = true -> plain_items ct s l a = true -> vscalar v = true ->
+    copy_guard_kept ct s l a KSet (HWithItem a) (mkh [v] false true VMissing false None None [] None).
+  Proof.
+    intros H Hp Hv. pose proof H as H0. ipfacts KSet H.
+    destruct (plain_items_facts ct s l a sp Hsp Hp) as [P1 P2]. sshape Hty Hk. cbn [item_type] in P2.
+    apply (shape_to_guard KSet _ _ c d (OSet xs) H0 Gl Hob).
+    exact (with_item_set_copy_keeps ct l a c d k sp s lc Gl Gc Ga Gd Gdnc Gpc Gni Gfld Gflat Ginit Ga0 xs ity Hty ltac:(dep) Glc Go v P1 P2 Hv).
+  Qed.
+
+  Theorem without_item_set_copy_keeps_guard voi :
+    copy_guard ct s l a KSet = true -> nonref voi = true ->
+    copy_guard_kept ct s l a KSet (HWithoutItem a) (mkh [voi] false true VMissing false None None [] None).
+  Proof.
+    intros H Hv. pose proof H as H0. ipfacts KSet H. sshape Hty Hk.
+    apply (shape_to_guard KSet _ _ c d (OSet xs) H0 Gl Hob).
+    exact (without_item_set_copy_keeps ct l a c d k sp s lc Gl Gc Ga Gd Gdnc Gpc Gni Gfld Gflat Ginit Ga0 xs ity Hty Glc Go voi Hv).
+  Qed.
+
+  Theorem transform_item_set_copy_keeps_guard voi fo bi :
+    copy_guard ct s l a KSet = true -> fail_at s = None -> vscalar voi = true -> fo_ok fo ->
+    copy_guard_kept ct s l a KSet (HTransformItem a) (mkh [voi] false true VMissing false bi None [] fo).
+  Proof.
+    intros H Hfa Hv Hfo. pose proof H as H0. ipfacts KSet H. sshape Hty Hk.
+    apply (shape_to_guard KSet _ _ c d (OSet xs) H0 Gl Hob).
+    exact (transform_item_set_copy_keeps ct l a c d k sp s lc Gl Gc Ga Gd Gdnc Gpc Gni Gfld Gflat Ginit Ga0 xs ity Hty ltac:(dep) Glc Go voi fo bi Hv Hfa Hfo).
+  Qed.
+
+  Theorem update_item_set_copy_keeps_guard voi v :
+    copy_guard ct s l a KSet = true -> plain_items ct s l a = true -> vscalar voi = true -> nonref v = true ->
+    copy_guard_kept ct s l a KSet (HUpdateItem a) (mkh [voi; v] false true VMissing false None None [] None).
+  Proof.
+    intros H Hp Hv Hnv. pose proof H as H0. ipfacts KSet H.
+    destruct (plain_items_facts ct s l a sp Hsp Hp) as [P1 P2]. sshape Hty Hk. cbn [item_type] in P2.
+    apply (shape_to_guard KSet _ _ c d (OSet xs) H0 Gl Hob).
+    exact (update_item_set_copy_keeps ct l a c d k sp s lc Gl Gc Ga Gd Gdnc Gpc Gni Gfld Gflat Ginit Ga0 xs ity Hty ltac:(dep) Glc Go voi v P1 P2 Hv Hnv).
+  Qed.
+End GuardedCopyKeeps.
 
 (* ------------------------------------------------------------------ *)
 (** * A concrete class and receiver: xs : List[int], m : Dict[str, int], t : Set[int] *)
